@@ -85,6 +85,8 @@ class KuiperTest(BaseStatisticalTest):
         :return: false positive probability
         :rtype: float
         """  # noqa: E501
+        if D <= 1.0 / N:
+            return 1.0
         if D < 2.0 / N:
             return 1.0 - factorial(N) * (D - 1.0 / N) ** (N - 1)
 
@@ -161,4 +163,4 @@ class KuiperTest(BaseStatisticalTest):
             N=sample_effective_size,
         )
 
-        return statistic, p_value
+        return statistic, float(np.clip(p_value, 0.0, 1.0))
